@@ -229,6 +229,18 @@ def check_case(ctx, case):
                           {'surface': surface, 'msg': o['msg']})
             return
         vals = check_relations(ctx, case, o['ok'], temps, surface)
+        if int(case['T_ref'] * 1000) % 3 == 0 or case.get('long_table'):
+            # copies and unpickled copies of the object are the same
+            # functions (made before / after the object's first use)
+            from vmon.core import clones
+            fresh_obj = build(case, surface)
+            calls = [('%s(%r)' % (nm, T), lambda o_, nm=nm, T=T: repr(float(
+                getattr(o_, nm)(T))))
+                for nm in ('get_SoR', 'get_HoRT', 'get_CpoR', 'get_GoRT')
+                for T in temps[:3]]
+            clones.agreement(ctx, dict(case, surface=surface), fresh_obj,
+                             calls, 'correlation object',
+                             'before' if len(case['Ts']) % 2 else 'after')
         if vals is None:
             complete = False
             continue
